@@ -14,7 +14,7 @@ RULE = ("every degree 0..40 (and 499..520 across the len>500 scheme switch) x ra
         "all-nonzero for ratio form) x rational points x all schemes/reverse flags/Laurent regimes; divmod/multiply/add/derivative/taylorat by "
         "coefficient identities. distinct_nontrivial = distinct (function, scheme, reverse, degree, zero-pattern class) tuples with degree >= 1")
 ASSUME = ["Python Fraction arithmetic is exact"]
-REQUIRE = ["evaluations", "site:poly.fast_polynomial", "site:fpa.fast_polynomial", "site:fpa.horner", "site:fpa.laurent", "site:rpolynomial",
+REQUIRE = ["evaluations", "site:poly.fast_polynomial", "site:fpa.fast_polynomial", "site:fpa.horner", "site:fpa.compensated_horner", "site:fpa.laurent", "site:rpolynomial",
            "site:divmod", "site:taylorat", "site:derivative", "site:multiply", "site:add", "site:big-degree"]
 
 
@@ -133,6 +133,27 @@ def check_poly(rnd, rec, P, fpa, deg, mode, big=False):
         got = fpa.horner(QCtx(), x, cs, reverse=rev)
         if got != want:
             rec.violation("fpa.horner-value", wit(reverse=rev, deg=deg, coeffs=cs if deg < 12 else None, x=x, got=got, want=want))
+    # compensated Horner: an error-free scheme over floats (value = s + r); driven with small integers so that every float operation is exact
+    if deg <= 14:
+        import numpy
+        from functional_algorithms import utils as fa_utils
+
+        nctx = fa_utils.NumpyContext(numpy.float64)
+        ci = [rnd.randint(-20, 20) if rnd.random() < 0.85 else 0 for _ in range(deg + 1)]
+        xi = rnd.choice([-3, -2, -1, 0, 1, 2, 3])
+        for rev in (False, True):
+            want = direct([F(c) for c in (ci[::-1] if rev else ci)], F(xi))
+            rec.count("evaluations")
+            rec.count("site:fpa.compensated_horner")
+            try:
+                with numpy.errstate(all="ignore"):
+                    s_, r_ = fpa.compensated_horner(nctx, numpy.float64(xi), [numpy.float64(c) for c in ci], reverse=rev)
+                got = F(float(s_)) + F(float(r_))
+            except Exception as e:
+                rec.violation("fpa.compensated_horner-exception", wit(reverse=rev, deg=deg, coeffs=ci, x=xi, exc=f"{type(e).__name__}: {e}"[:200]))
+                continue
+            if got != want:
+                rec.violation("fpa.compensated_horner-value", wit(reverse=rev, deg=deg, coeffs=ci, x=xi, got=got, want=want))
         if deg >= 1:
             rec.cls("fpa", "horner", rev, deg, zc)
     # laurent: all four regimes of m
